@@ -220,6 +220,9 @@ def classify(run, reports, trace_index, prop, checks=None):
             v = o['verdict']
             if v == 'skip':
                 run.notes['skipped'] = run.notes.get('skipped', 0) + 1
+                why = run.notes.setdefault('skipped_reasons', {})
+                k = o['detail'][:90]
+                why[k] = why.get(k, 0) + 1
                 continue
             if v == 'machinery':
                 raise Machinery('driver machinery error in %s: %s' % (rep['cid'], o['detail']))
